@@ -226,8 +226,9 @@ def one(args):
     c = o[1]
     res["outcome"] = "ok"
     rs = c.raw_settings
-    res["port"] = rs.get("SETTING_PORT")
-    res["sleep"] = rs.get("SETTING_SLEEPTIME")
+    plain = lambda v: v if v is None else int(v) if isinstance(v, int) else repr(bytes(v))  # noqa: E731  (a derailed parse may hand out cstruct byte types)
+    res["port"] = plain(rs.get("SETTING_PORT"))
+    res["sleep"] = plain(rs.get("SETTING_SLEEPTIME"))
     res["n_settings"] = len(c.settings_tuple)
     res["ua_len"] = len(rs.get("SETTING_USERAGENT", b""))
     res["xorkey"] = L(c.xorkey) if c.xorkey is not None else None
@@ -302,7 +303,7 @@ CHECK_DEADLOCK FALSE
             if res["outcome"] != "ok":
                 ctx.violation("extraction failed although a block under a tried key is present", {**m, "failed": "missed_block", "got": res["outcome"], "pos": str(variant["pos"]) if isinstance(variant["pos"], str) else "boundary"}, brief)
             else:
-                idx = (res["port"] or 0) - 1000
+                idx = (res["port"] if isinstance(res["port"], int) else 0) - 1000
                 if idx not in allowed:
                     ctx.violation("extraction chose a block that ExtractR does not allow", {**m, "failed": "wrong_block"}, brief)
                 else:
